@@ -6,6 +6,8 @@ package main
 
 import (
 	"fmt"
+	"go/token"
+	"os"
 	"strings"
 
 	"golang.org/x/tools/go/ssa"
@@ -79,9 +81,14 @@ func runC08(c *Ctx) {
 		}
 		// `defer unlock()` where unlock is, on this path, a function literal that removes the lock
 		if mc, ok := strip(refine(d.Call.Value, factsAt(d))).(*ssa.MakeClosure); ok {
-			for _, cs := range callsIn(mc.Fn.(*ssa.Function), "os.Remove") {
-				if describeArg(cs, 0) == ld {
-					dfr = d
+			for _, inner := range WithClosures(mc.Fn.(*ssa.Function)) {
+				for _, cs := range callsIn(inner, "os.Remove") {
+					if describeArg(cs, 0) == ld || describe(outerValue(argsOf(cs)[0])) == ld {
+						dfr = d
+					}
+					if os.Getenv("VERIF_DEBUG_LOCK") != "" {
+						fmt.Printf("LOCK deferred remove of %s / %s; lock name %s\n", describeArg(cs, 0), describe(outerValue(argsOf(cs)[0])), ld)
+					}
 				}
 			}
 		}
@@ -338,4 +345,72 @@ func c08BodyIsReadFile(c *Ctx, m *Module, rule string) {
 		r.Check(rule, fname(cs.Parent())+"/body handed to uploadReportContents is a successfully read file", m.Pos(cs.Pos()), ok, detail)
 	}
 	r.Check(rule, "callers of uploadReportContents enumerated", m.Pos(fn.Pos()), n >= 1, fmt.Sprintf("%d", n))
+}
+
+// outerValue: a value read inside a function literal from a variable of the enclosing function
+// that holds one value on every path (assigned once, or assigned the same value everywhere) is
+// that value.
+func outerValue(v ssa.Value) ssa.Value {
+	for depth := 0; depth < 4; depth++ {
+		ld, ok := strip(v).(*ssa.UnOp)
+		if !ok || ld.Op != token.MUL {
+			return v
+		}
+		var cell ssa.Value = ld.X
+		if fv, isFV := cell.(*ssa.FreeVar); isFV {
+			fn := fv.Parent()
+			idx := -1
+			for i, f := range fn.FreeVars {
+				if f == fv {
+					idx = i
+				}
+			}
+			cell = nil
+			if fn.Parent() != nil && idx >= 0 {
+				for _, in := range instrsOf(fn.Parent()) {
+					if mc, isMC := in.(*ssa.MakeClosure); isMC && mc.Fn == ssa.Value(fn) && idx < len(mc.Bindings) {
+						cell = mc.Bindings[idx]
+					}
+				}
+			}
+			if cell == nil {
+				return v
+			}
+			if _, again := cell.(*ssa.FreeVar); again {
+				v = &ssa.UnOp{Op: token.MUL, X: cell}
+				continue
+			}
+		}
+		a, isA := cell.(*ssa.Alloc)
+		if !isA {
+			return v
+		}
+		var val ssa.Value
+		for _, u := range referrers(a) {
+			if st, isSt := u.(*ssa.Store); isSt && st.Addr == ssa.Value(a) {
+				if isZeroNew(st.Val) {
+					continue
+				}
+				if val != nil && describe(val) != describe(st.Val) {
+					return v
+				}
+				val = st.Val
+			}
+		}
+		if val == nil {
+			return v
+		}
+		v = val
+	}
+	return v
+}
+
+// isZeroNew: *new(T) — the zeroing the second stage writes before a composite literal's fields.
+func isZeroNew(v ssa.Value) bool {
+	ld, ok := v.(*ssa.UnOp)
+	if !ok || ld.Op != token.MUL {
+		return false
+	}
+	a, ok := ld.X.(*ssa.Alloc)
+	return ok && a.Heap && len(referrers(a)) == 1
 }
